@@ -154,7 +154,7 @@ Definition skip_all_A (pol : policy) : A unit := fun r =>
 (* ---- scripts of raw operations, for the correspondence stream c07.grants ---- *)
 Inductive aop :=
 | ATakeU8 | ATakeOpt | ASkip (n : N) | ATakeAll | ASkipAll | ASetLim (l : option N)
-| ARequest (n : N) | ATag | AExhausted.
+| ARequest (n : N) | ATag | AExhausted | ATagIf (e0 e1 e2 e3 : N).
 
 (* LimitedSource::exhausted: limit 0 / limit left / no limit: request(1) == 0 *)
 Definition exhausted_A (pol : policy) : A unit := fun r =>
@@ -177,6 +177,27 @@ Definition tag_A (pol : policy) : A (option (N * N * N * N * bool)) := runA pol
       if N.land d3 128 =? 0 then PRet (Some (d0,d1,d2,d3,c)) else PErr)))
     else PRet (Some (d0,0,0,0,c)) end)).
 
+(* Tag::take_from_if as the code does it: request(1) == 0 -> absent; slice()[0]; for a high tag number
+   peek further octets (request(i+1) <= i -> error; slice()[i]; more than four octets -> error); compare with
+   the expected tag; advance over the identifier only on a match *)
+Definition tagif_A (pol : policy) (e : N * N * N * N) : A (option bool) :=
+  bindA (requestA pol 1) (fun g =>
+  if g <? 1 then retA None else
+  bindA (indexA 0) (fun b =>
+  let d0 := N.land b 223 in let c := negb (N.land b 32 =? 0) in
+  let fin (t : N * N * N * N) (n : N) : A (option bool) :=
+    let '(a0, a1, a2, a3) := t in let '(b0, b1, b2, b3) := e in
+    if (a0 =? b0) && (a1 =? b1) && (a2 =? b2) && (a3 =? b3)
+    then bindA (advanceA n) (fun _ => retA (Some c)) else retA None in
+  if N.land d0 31 =? 31 then
+    bindA (peek_A pol 1) (fun d1 =>
+    if N.land d1 128 =? 0 then fin (d0,d1,0,0) 2 else
+    bindA (peek_A pol 2) (fun d2 =>
+    if N.land d2 128 =? 0 then fin (d0,d1,d2,0) 3 else
+    bindA (peek_A pol 3) (fun d3 =>
+    if N.land d3 128 =? 0 then fin (d0,d1,d2,d3) 4 else cerrA)))
+  else fin (d0,0,0,0) 1)).
+
 Definition mapA {T U} (f : T -> U) (m : A T) : A U := bindA m (fun t => retA (f t)).
 Definition zlist (l : list N) : list Z := map Z.of_N l.
 
@@ -194,6 +215,8 @@ Definition run_aop (pol : policy) (o : aop) : A (list Z) :=
                  | Some (a,b,c,d,k) => [1%Z; Z.of_N a; Z.of_N b; Z.of_N c; Z.of_N d; if k then 1%Z else 0%Z]
                  | None => [0%Z] end) (tag_A pol)
   | AExhausted => mapA (fun _ => [0%Z]) (exhausted_A pol)
+  | ATagIf e0 e1 e2 e3 => mapA (fun o : option bool => match o with
+                 | Some k => [1%Z; if k then 1%Z else 0%Z] | None => [0%Z] end) (tagif_A pol (e0, e1, e2, e3))
   end.
 
 (* run until the first error; (code, log, final source) *)
@@ -231,5 +254,6 @@ Fixpoint parse_aops (fuel : nat) (l : list N) : list aop :=
   | 7 :: n :: t => ARequest n :: parse_aops f t
   | 8 :: t => ATag :: parse_aops f t
   | 9 :: t => AExhausted :: parse_aops f t
+  | 10 :: e0 :: e1 :: e2 :: e3 :: t => ATagIf e0 e1 e2 e3 :: parse_aops f t
   | _ => []
   end end.
